@@ -6,7 +6,7 @@ func extraRules() []*Rule {
 	out = append(out, rulesLocks()...)
 	out = append(out, rulesTables()...)
 	out = append(out, rulesStorage()...)
-	out = append(out, ruleLifecycle(), ruleHeartbeat())
+	out = append(out, ruleLifecycle(), ruleHeartbeat(), ruleRecordOffset())
 	return out
 }
 
@@ -15,7 +15,7 @@ func extraSpecs() []*PropertySpec {
 	return []*PropertySpec{
 		{
 			ID:         "C12",
-			Rules:      []string{"LOG-WSP", "TMP-RENAME", "TMP-CLEAN", "REPLAY-TAIL", "ERR-DISC", "COMPACT-KEEP"},
+			Rules:      []string{"LOG-WSP", "TMP-RENAME", "TMP-CLEAN", "REPLAY-TAIL", "ERR-DISC", "COMPACT-KEEP", "RECORD-OFFSET"},
 			Decided:    "every log mutator writes, fsyncs and only then publishes in memory, every error path returns before publishing; compaction and discard go through a temporary file in the log directory that is synced and closed (as is the old file) before the rename, the in-memory log is replaced only afterwards and the temporary is removed on failure; NewLog removes temporaries; Replay distinguishes a clean end from a torn tail, truncates the file to the last complete record, syncs and repositions; no storage error is dropped; Compact/DiscardEntries keep exactly the boundary placeholder and suffix",
 			NotDecided: "byte-prefix semantics of the file system; decoding of garbage in the middle of the file; directory fsync after rename (no site in the repository does it; not inferred as a rule)",
 		},
@@ -37,7 +37,7 @@ func extraSpecs() []*PropertySpec {
 		{ID: "C10", Rules: []string{"RESTORE-COVER"}, Decided: "restore takes lastApplied, commitIndex and the snapshot boundary from the metadata of the very file handed to StateMachine.Restore"},
 		{ID: "C11", Rules: []string{"COMPACT-KEEP"}, Decided: "Compact keeps the boundary entry as placeholder plus the suffix, DiscardEntries leaves exactly the placeholder, LastIndex/LastTerm/NextIndex read the last element"},
 		{ID: "C15", Rules: []string{"CHUNK-BOUND", "HEARTBEAT"}, Decided: "the bytes of one InstallSnapshot request are bounded by the chunk constant, itself below the 4 MiB gRPC limit (one known finding D15); heartbeats go to every member on every tick of a non-follower; the election timeout is re-randomised per iteration"},
-		{ID: "C19", Rules: []string{"CHUNK-BOUND"}, Decided: "snapshot payloads cross the transport in bounded chunks (one known finding D15)"},
+		{ID: "C19", Rules: []string{"CHUNK-BOUND", "RECORD-OFFSET"}, Decided: "snapshot payloads cross the transport in bounded chunks (one known finding D15)"},
 		{ID: "C18", Rules: []string{"LIFECYCLE"}, Decided: "exhaustive exploration of Start/Restart/Stop/Bootstrap sequences over the (running, log open, configured, lifecycle flags) automaton extracted from the code: a running node always has its log open and no lifecycle method uses a closed log"},
 		{ID: "C01", Rules: []string{"APPLY-ORDER"},
 			Decided: "the apply loop fetches log[lastApplied+1] only while lastApplied < commitIndex, hands exactly that entry's index/term/data to the state machine and advances lastApplied by one"},
